@@ -15,6 +15,9 @@ import (
 	"github.com/russellhaering/goxmldsig/etreeutils"
 )
 
+// the case set "validate2" (verifier model with canonicalisers AND re-parse modelled); nil outside the DSIG runner
+var dgReaderSet *CaseSet
+
 func init() {
 	runners["DSIG"] = func(c *Ctx) {
 		c.Rep.Rule = "elements handed to goxmldsig ValidationContext.Validate: (a) small free-form documents signed by the mini-IdP (6 canonicalisers x 4 signature methods x KeyInfo present/absent/foreign/garbage) followed by 0..3 of 60 signature-structure edits (several Signature elements, Reference pointing elsewhere / empty URI / non-# first byte, several References in both orders re-signed by the IdP, Signature nested deeper or inside ds:Object, missing or duplicated SignedInfo/KeyInfo/SignatureValue and their children, wrong name spaces, undeclared and reserved prefixes before and after the signature, element counts around the 1000-visit limit, transform lists without / with two enveloped-signature transforms, unknown algorithms, prefix lists, white space and garbage in base64 fields, tampering), (b) SAML Responses / detached Assertions of the mini-IdP with the attacker edits of C01; every case under a store composition out of 9 and a clock that is swept over NotBefore-1s, NotBefore, NotBefore+1s, NotAfter-1s, NotAfter, NotAfter+1s of the signing certificate in a third of the cases; non-trivial = edited, non-default store or boundary clock; distinct by (labels, outcome)"
@@ -24,6 +27,14 @@ func init() {
 			"fun i => match i with (t, store, now, root, et, em) => dsig_obs_model t store now root et em end")
 		cs.PerShard = 24
 		cs.Prelude = "Local Open Scope nat_scope.\n" // so that coqc prints the indices of mismatching cases as plain numbers
+		// the same cases with the re-parse ALSO answered by the model (XmlTok.read_tree instead of the table computed with
+		// etree): DsigReader.dsig_obs_model2; third component = entries of the reparse table on which model and etree differ
+		dgReaderSet = c.NewSet("validate2", "Base Time Xml Ns Response Dsig Canon XmlTok DsigReader",
+			"(oracle_tables * list cert * instant * node * option node * option node)",
+			"fun i => match i with (t, store, now, root, et, em) => dsig_obs_model2 t store now root et em end")
+		dgReaderSet.PerShard = 24
+		dgReaderSet.Prelude = cs.Prelude
+		defer func() { dgReaderSet = nil }()
 		sc := c.NewSet("schema", "Base SchemaDefs Schema Dsig", "unit", "fun _ => schema_val dsig_schema")
 		sc.Add("tt", dgSchemaVal(), "struct tags of goxmldsig/types read by reflection")
 		dgPrepStream(c, c.N(300, 6000))
